@@ -9,6 +9,7 @@
 //! maps::watch(rep, "C08", "reorder", &out, || json!({"input": m.render()}));
 //! let got = maps::model::from_quill(&out);
 //! ```
+pub mod cmp;
 pub mod desc;
 pub mod gen;
 pub mod invariant;
